@@ -101,6 +101,13 @@ impl WalIndex {
         fs::rename(&tmp_path, &self.path)?;
         #[cfg(walrus_verif)]
         crate::wal::verif_hooks::trace(|| "idxrename".to_string());
+        // The rename is durable only once the directory is (same as for new WAL files): without
+        // this a power loss can bring back the previous index, i.e. forget consumed entries.
+        if let Some(dir) = std::path::Path::new(&self.path).parent() {
+            fs::File::open(dir)?.sync_all()?;
+            #[cfg(walrus_verif)]
+            crate::wal::verif_hooks::trace(|| "syncdir".to_string());
+        }
         Ok(())
     }
 }
